@@ -50,16 +50,11 @@ def confirm(pid, x):
     if not m:
         print("ERROR: cannot find 'place in <crate>/tests' in demo header"); return 3
     tdir = m.group(1); crate = tdir.split("/")[0]
-    feats = []
-    mf = re.search(r"features?[^\n]*?`([a-z_,\- ]+)`", head)
+    # every feature of the demo's crate is enabled (a superset of whatever the demo's header or cfg attributes ask for),
+    # unless the demo is explicitly about the no-default-features build
+    feats = ["--all-features"]
     rustflags = "--cfg rustaudio_dasp_verif" if "rustaudio_dasp_verif" in head else None
     release = any(("cargo test" in l and "--release" in l) for l in head.splitlines())
-    if "--features" in head:
-        mf2 = re.search(r"--features[ =]\"?([A-Za-z_,\-]+)", head)
-        if mf2: feats = ["--features", mf2.group(1)]
-    elif mf and crate in ("dasp_signal", "dasp_slice", "dasp_envelope", "dasp_interpolate", "dasp_window"):
-        feats = ["--features", mf.group(1).replace(" ", "")]
-    if "--all-features" in head: feats = ["--all-features"]
     if "--no-default-features" in head: feats = ["--no-default-features"]
     if os.environ.get("SEED_FEATS") is not None:
         feats = os.environ["SEED_FEATS"].split()
